@@ -224,8 +224,10 @@ for t, T in TY.items():
                 ens = []
                 for i in range(L):
                     ens += ulp_clauses(t, xs[i], ys[i], kk[i], 'out[%d]' % i, eq, 'comp%d_' % i)
-                    ens.append(('comp%d_same_as_scalar' % i, '%s || %s || (out[%d] != 0) == (%s(%s, %s, %s) != 0)' % (
-                        T['nan'] % xs[i], T['nan'] % ys[i], i, s, xs[i], ys[i], kk[i])))
+                # "identically for the scalar, vector and matrix overloads": a cross-check, one obligation per function (it adds
+                # nothing to the per-component clauses above when the scalar overload satisfies its own clauses)
+                ens.append(('all_components_same_as_scalar', ' && '.join('(%s || %s || (out[%d] != 0) == (%s(%s, %s, %s) != 0))' % (
+                    T['nan'] % xs[i], T['nan'] % ys[i], i, s, xs[i], ys[i], kk[i]) for i in range(L))))
                 C(v, 'glm::%s(vec<%d,%s>, vec<%d,%s>, %s ULPs)  %s' % (fname, L, cpp, L, cpp, 'vec<%d,int>' % L if vk else 'int', VR),
                   tier_of(t, L, 'int', vk), uses=[s], requires=k_req(ks if vk else ['k']), ensures=ens)
         for (Cn, Rn) in MATS:
